@@ -20,4 +20,13 @@ PROPS = {
         ],
         "trusted_base": ["sync.Pool buffer recycling is not modelled; its independence is exercised by 16 concurrent goroutines per 40th case"],
     },
+    "C01": {
+        "suites": ["c01"],
+        "assumptions": COMMON_ASSUME + [
+            "a report pass reaches a counter only through counter.report / cachedReport / histogram.report (tie facts), so 'visit' = swap then optional reporter call",
+            "lifting from one cell to 'per name and tags': a pass visits each registered counter once (C04/C07 cover registration and naming)",
+        ],
+        "trusted_base": ["cooperative scheduler on the verif yield hooks (harness/sched.go): exactly one registered goroutine runs between two hooks"],
+        "timeout": {"quick": 300, "thorough": 3000},
+    },
 }
